@@ -445,6 +445,12 @@ func (f *FSM) witnessSnapshot(metadata *raft.SnapshotMeta) error {
 	f.l.RLock()
 	defer f.l.RUnlock()
 
+	// The snapshot is persisted after its index was fixed; entries applied in
+	// the meantime must not be forgotten: only ever move forward.
+	if metadata.Index < f.latestIndex.Load() {
+		return nil
+	}
+
 	err := writeSnapshotMetaToDB(metadata, f.db)
 	if err != nil {
 		return err
